@@ -91,9 +91,10 @@ ID_uni == <<195, 169, 228, 184, 150>>   \* "é世"
 H0 == [range |-> <<>>, crange |-> <<>>, ctype |-> <<>>, cl |-> 0]
 Sc0 == [ans |-> "ok", size |-> 3, mt |-> MT_test, rdig |-> D2, id |-> ID_plain, chunk |-> 7, wsize |-> 5,
         werr |-> "ok", cerr |-> "ok", merr |-> "ok", items |-> <<>>, iterr |-> "ok", rfail |-> 0, rcerr |-> "ok"]
-O0 == [noref |-> FALSE, nosingle |-> FALSE, maxpage |-> 0, omitdig |-> FALSE, omitlink |-> FALSE]
-O1 == [noref |-> TRUE, nosingle |-> TRUE, maxpage |-> 2, omitdig |-> TRUE, omitlink |-> TRUE]
-Opts == <<O0, O1>>
+O0 == [noref |-> FALSE, nosingle |-> FALSE, maxpage |-> 0, omitdig |-> FALSE, omitlink |-> FALSE, locs |-> "nil"]
+O1 == [noref |-> TRUE, nosingle |-> TRUE, maxpage |-> 2, omitdig |-> TRUE, omitlink |-> TRUE, locs |-> "nil"]
+\* 3..6: LocationsForDescriptor set (one location, several, none, an error)
+Opts == <<O0, O1, [O0 EXCEPT !.locs = "one"], [O0 EXCEPT !.locs = "many"], [O0 EXCEPT !.locs = "none"], [O0 EXCEPT !.locs = "err"]>>
 
 Body1 == [bytes |-> <<>>,
           n |-> 0, json |-> "invalid", subj |-> <<>>,
@@ -114,6 +115,20 @@ Body6 == [bytes |-> <<120>>,
           n |-> 1, json |-> "invalid", subj |-> <<>>,
           sha |-> <<115, 104, 97, 50, 53, 54, 58, 50, 100, 55, 49, 49, 54, 52, 50, 98, 55, 50, 54, 98, 48, 52, 52, 48, 49, 54, 50, 55, 99, 97, 57, 102, 98, 97, 99, 51, 50, 102, 53, 99, 56, 53, 51, 48, 102, 98, 49, 57, 48, 51, 99, 99, 52, 100, 98, 48, 50, 50, 53, 56, 55, 49, 55, 57, 50, 49, 97, 52, 56, 56, 49>>]
 Bodies == <<Body1, Body2, Body3, Body4, Body5, Body6>>
+\* the true sha512 / sha384 digests of the table bodies (a manifest pushed under one of them)
+Sha512Of == <<<<115, 104, 97, 53, 49, 50, 58, 99, 102, 56, 51, 101, 49, 51, 53, 55, 101, 101, 102, 98, 56, 98, 100, 102, 49, 53, 52, 50, 56, 53, 48, 100, 54, 54, 100, 56, 48, 48, 55, 100, 54, 50, 48, 101, 52, 48, 53, 48, 98, 53, 55, 49, 53, 100, 99, 56, 51, 102, 52, 97, 57, 50, 49, 100, 51, 54, 99, 101, 57, 99, 101, 52, 55, 100, 48, 100, 49, 51, 99, 53, 100, 56, 53, 102, 50, 98, 48, 102, 102, 56, 51, 49, 56, 100, 50, 56, 55, 55, 101, 101, 99, 50, 102, 54, 51, 98, 57, 51, 49, 98, 100, 52, 55, 52, 49, 55, 97, 56, 49, 97, 53, 51, 56, 51, 50, 55, 97, 102, 57, 50, 55, 100, 97, 51, 101>>,
+             <<115, 104, 97, 53, 49, 50, 58, 54, 51, 102, 56, 55, 97, 53, 98, 50, 49, 98, 55, 48, 48, 55, 49, 49, 102, 54, 100, 100, 49, 99, 97, 98, 97, 99, 102, 100, 101, 97, 50, 49, 101, 51, 51, 102, 98, 50, 102, 98, 50, 50, 48, 100, 48, 48, 98, 101, 48, 55, 100, 55, 102, 99, 100, 49, 100, 101, 51, 102, 48, 56, 53, 101, 53, 98, 55, 101, 101, 53, 49, 99, 50, 53, 98, 101, 54, 98, 57, 97, 53, 102, 48, 53, 52, 100, 57, 48, 52, 102, 51, 54, 100, 97, 57, 51, 101, 48, 102, 102, 102, 53, 51, 102, 100, 100, 53, 102, 98, 50, 50, 51, 97, 99, 100, 56, 48, 55, 53, 98, 99, 53, 102, 102, 52, 54, 53>>,
+             <<115, 104, 97, 53, 49, 50, 58, 51, 52, 49, 57, 57, 50, 101, 97, 52, 50, 55, 53, 101, 99, 102, 51, 50, 99, 101, 101, 56, 97, 100, 52, 102, 55, 98, 100, 57, 49, 50, 53, 49, 101, 50, 51, 102, 100, 98, 98, 98, 49, 54, 99, 100, 100, 102, 101, 49, 51, 98, 56, 50, 50, 52, 50, 52, 57, 56, 53, 49, 102, 101, 99, 51, 55, 102, 101, 97, 55, 97, 52, 52, 54, 56, 52, 56, 101, 100, 48, 98, 56, 57, 49, 56, 53, 101, 48, 57, 98, 54, 97, 99, 57, 50, 53, 48, 97, 50, 98, 101, 57, 49, 54, 101, 98, 100, 56, 49, 53, 97, 99, 99, 48, 53, 50, 51, 55, 50, 52, 55, 52, 54, 48, 56, 56, 100, 49>>,
+             <<115, 104, 97, 53, 49, 50, 58, 98, 99, 48, 102, 102, 49, 102, 99, 55, 56, 98, 52, 50, 52, 101, 99, 97, 99, 97, 50, 49, 97, 100, 49, 97, 49, 100, 57, 49, 57, 53, 52, 54, 99, 97, 101, 99, 98, 55, 54, 55, 97, 101, 57, 53, 52, 100, 48, 51, 48, 97, 54, 54, 55, 57, 55, 102, 56, 51, 101, 48, 99, 101, 55, 51, 49, 55, 48, 97, 100, 100, 50, 54, 57, 101, 50, 52, 57, 100, 57, 53, 51, 56, 48, 100, 50, 100, 57, 51, 102, 48, 55, 100, 48, 97, 54, 97, 57, 49, 52, 98, 51, 48, 55, 57, 55, 54, 52, 99, 50, 55, 102, 48, 102, 49, 51, 48, 102, 98, 57, 99, 53, 52, 99, 53, 53, 49, 102>>,
+             <<115, 104, 97, 53, 49, 50, 58, 52, 97, 51, 101, 100, 56, 49, 52, 55, 101, 51, 55, 56, 55, 54, 97, 100, 99, 56, 102, 55, 54, 51, 50, 56, 101, 53, 97, 98, 99, 99, 49, 98, 52, 55, 48, 101, 54, 97, 99, 102, 99, 49, 56, 101, 102, 101, 97, 48, 49, 51, 53, 102, 57, 56, 51, 54, 48, 52, 57, 53, 51, 97, 53, 56, 101, 49, 56, 51, 99, 49, 97, 54, 48, 56, 54, 101, 57, 49, 98, 97, 51, 101, 56, 50, 49, 100, 57, 50, 54, 102, 53, 102, 100, 101, 98, 51, 55, 55, 54, 49, 99, 55, 99, 97, 48, 51, 50, 56, 97, 57, 54, 51, 102, 53, 101, 57, 50, 56, 55, 48, 54, 55, 53, 98, 55, 50, 56>>,
+             <<115, 104, 97, 53, 49, 50, 58, 97, 52, 97, 98, 100, 52, 52, 52, 56, 99, 52, 57, 53, 54, 50, 100, 56, 50, 56, 49, 49, 53, 100, 49, 51, 97, 49, 102, 99, 99, 101, 97, 57, 50, 55, 102, 53, 50, 98, 52, 100, 53, 52, 53, 57, 50, 57, 55, 102, 56, 98, 52, 51, 101, 52, 50, 100, 97, 56, 57, 50, 51, 56, 98, 99, 49, 51, 54, 50, 54, 101, 52, 51, 100, 99, 98, 51, 56, 100, 100, 98, 48, 56, 50, 52, 56, 56, 57, 50, 55, 101, 99, 57, 48, 52, 102, 98, 52, 50, 48, 53, 55, 52, 52, 51, 57, 56, 51, 101, 56, 56, 53, 56, 53, 49, 55, 57, 100, 53, 48, 53, 53, 49, 97, 102, 101, 54, 50>>>>
+Sha384Of == <<<<115, 104, 97, 51, 56, 52, 58, 51, 56, 98, 48, 54, 48, 97, 55, 53, 49, 97, 99, 57, 54, 51, 56, 52, 99, 100, 57, 51, 50, 55, 101, 98, 49, 98, 49, 101, 51, 54, 97, 50, 49, 102, 100, 98, 55, 49, 49, 49, 52, 98, 101, 48, 55, 52, 51, 52, 99, 48, 99, 99, 55, 98, 102, 54, 51, 102, 54, 101, 49, 100, 97, 50, 55, 52, 101, 100, 101, 98, 102, 101, 55, 54, 102, 54, 53, 102, 98, 100, 53, 49, 97, 100, 50, 102, 49, 52, 56, 57, 56, 98, 57, 53, 98>>,
+             <<115, 104, 97, 51, 56, 52, 58, 97, 57, 55, 101, 101, 51, 53, 102, 102, 97, 99, 99, 55, 102, 101, 98, 97, 50, 53, 48, 53, 56, 101, 48, 97, 50, 102, 56, 48, 101, 53, 102, 98, 102, 54, 99, 51, 49, 102, 102, 54, 49, 98, 102, 98, 54, 51, 56, 99, 55, 53, 48, 49, 53, 53, 102, 99, 97, 56, 102, 102, 53, 102, 101, 100, 52, 48, 55, 50, 56, 101, 57, 49, 100, 54, 48, 53, 99, 54, 100, 57, 52, 57, 102, 99, 56, 99, 48, 56, 53, 99, 53, 53, 51, 101, 54>>,
+             <<115, 104, 97, 51, 56, 52, 58, 49, 53, 50, 97, 56, 49, 48, 49, 53, 101, 100, 56, 100, 102, 50, 102, 52, 54, 97, 98, 101, 51, 52, 53, 48, 48, 50, 54, 51, 55, 101, 51, 57, 50, 97, 101, 57, 52, 102, 102, 54, 56, 100, 97, 53, 55, 48, 102, 102, 54, 54, 100, 55, 55, 49, 56, 102, 101, 51, 98, 48, 48, 51, 101, 55, 53, 51, 55, 102, 56, 99, 55, 52, 100, 53, 51, 99, 53, 102, 56, 57, 99, 54, 51, 53, 57, 99, 52, 99, 97, 98, 50, 50, 102, 100, 50>>,
+             <<115, 104, 97, 51, 56, 52, 58, 49, 100, 49, 97, 99, 100, 98, 99, 50, 99, 98, 51, 102, 97, 100, 101, 52, 100, 101, 100, 52, 98, 97, 101, 99, 55, 100, 51, 51, 49, 99, 53, 98, 51, 100, 57, 102, 49, 50, 101, 48, 48, 99, 97, 57, 50, 55, 49, 48, 50, 57, 56, 57, 102, 54, 48, 101, 53, 57, 55, 49, 52, 52, 51, 51, 55, 51, 56, 97, 100, 102, 52, 54, 56, 51, 55, 102, 49, 49, 52, 52, 101, 102, 48, 100, 50, 51, 54, 99, 55, 49, 97, 98, 49, 57, 52>>,
+             <<115, 104, 97, 51, 56, 52, 58, 101, 100, 99, 98, 48, 102, 52, 55, 50, 49, 101, 54, 53, 55, 56, 100, 57, 48, 48, 101, 52, 99, 50, 52, 97, 100, 52, 98, 49, 57, 101, 49, 57, 52, 97, 98, 54, 99, 56, 55, 102, 56, 50, 52, 51, 98, 102, 99, 54, 98, 49, 49, 55, 53, 52, 100, 100, 56, 98, 48, 98, 98, 100, 101, 52, 102, 51, 48, 98, 49, 100, 49, 56, 49, 57, 55, 57, 51, 50, 98, 54, 51, 55, 54, 100, 97, 48, 48, 52, 100, 99, 100, 57, 55, 99, 52>>,
+             <<115, 104, 97, 51, 56, 52, 58, 100, 55, 53, 50, 99, 50, 99, 53, 49, 102, 98, 97, 48, 101, 50, 57, 97, 97, 49, 57, 48, 53, 55, 48, 97, 57, 100, 52, 50, 53, 51, 101, 52, 52, 48, 55, 55, 97, 48, 53, 56, 100, 51, 50, 57, 55, 102, 97, 51, 97, 53, 54, 51, 48, 100, 53, 98, 100, 48, 49, 50, 54, 50, 50, 102, 57, 55, 99, 50, 56, 97, 99, 97, 101, 100, 51, 49, 51, 98, 53, 99, 56, 51, 98, 98, 57, 57, 48, 99, 97, 97, 55, 100, 97, 56, 53>>>>
+D384 == <<115, 104, 97, 51, 56, 52, 58, 101, 101, 56, 55, 102, 52, 53, 100, 56, 57, 50, 56, 48, 50, 52, 51, 51, 55, 54, 99, 48, 51, 100, 53, 48, 102, 55, 55, 100, 102, 54, 51, 51, 49, 56, 50, 51, 54, 52, 56, 98, 48, 98, 101, 56, 55, 51, 50, 101, 54, 52, 49, 102, 101, 98, 57, 49, 53, 55, 50, 51, 102, 97, 52, 101, 49, 54, 51, 56, 52, 55, 97, 53, 48, 97, 49, 56, 101, 99, 98, 101, 100, 54, 56, 55, 100, 54, 56, 51, 50, 102, 52, 49, 102, 51, 48>>   \* a well-formed sha384 digest of none of them
 \* what the specification reads of a body
 BodyFacts(b) == [n |-> b.n, sha |-> b.sha, json |-> b.json, subj |-> b.subj]
 
@@ -121,6 +136,7 @@ BodyFacts(b) == [n |-> b.n, sha |-> b.sha, json |-> b.json, subj |-> b.subj]
 \* (cfg: CompOK <- MCCompOK etc.  The tables are computed by the recognisers themselves.)
 \* (PathToks: every token that can appear in an enumerated path or query value; Bodies is defined below)
 PathToks == {TokSeq[i] : i \in 1..NTok} \cup {T_v1, T_bar, D2, D512} \cup {Bodies[i].sha : i \in 1..Len(Bodies)}
+            \cup {Sha512Of[i] : i \in 1..Len(Bodies)} \cup {Sha384Of[i] : i \in 1..Len(Bodies)} \cup {D384}
 QueryVals == {}
 CompTab == [x \in PathToks |-> Ref!IsRepository(x)]
 TagTab == [x \in PathToks |-> Ref!IsTag(x)]
@@ -265,6 +281,15 @@ HandleCases ==
   \* reader faults (size 3): fails after 0, 1, 2 bytes; rf = 4, 5: would fail at or after the end = never; Close failing
   \cup {[K("BlobGet", "GET") EXCEPT !.rng = r, !.rf = f, !.rcerr = e] : r \in 1..Len(BasicRanges), f \in 1..5, e \in {"ok", "DENIED"}}
   \cup {[K("ManifestGet", "GET") EXCEPT !.ref = x, !.oi = o, !.rf = f, !.rcerr = e] : x \in {"tag", "dmatch"}, o \in 1..2, f \in 0..5, e \in {"ok", "uncoded"}}
+  \* LocationsForDescriptor: every handler that names a location, and the blob GET redirect
+  \cup {[K(x[1], x[2]) EXCEPT !.ans = a, !.oi = o, !.bi = 2] :
+          x \in {<<"UploadBlob", "POST">>, <<"CompleteUpload", "PUT">>, <<"Mount", "POST">>, <<"ManifestPut", "PUT">>, <<"StartUpload", "POST">>,
+                  <<"UploadInfo", "GET">>, <<"ManifestGet", "GET">>, <<"BlobHead", "HEAD">>},
+          a \in {"ok", "DENIED"}, o \in 3..6}
+  \cup {[K("BlobGet", "GET") EXCEPT !.ans = a, !.oi = o, !.rng = r] : a \in {"ok", "BLOB_UNKNOWN"}, o \in 3..6, r \in {1, 3, 7, 8}}
+  \* a manifest pushed under a digest of another registered algorithm: the true one of the body, and a wrong one
+  \cup {[K("ManifestPut", "PUT") EXCEPT !.ref = f, !.bi = b, !.ct = c] :
+          f \in {"true512", "true384", "d384", "d512"}, b \in 1..5, c \in {1, 2}}
   \cup {[K("BlobDelete", "DELETE") EXCEPT !.ans = a] : a \in Answers}
   \cup {[K("StartUpload", "POST") EXCEPT !.ans = a, !.sid = s, !.cerr = c] : a \in Answers, s \in 1..Len(Ids), c \in {"ok", "DENIED"}}
   \cup {[K("UploadBlob", "POST") EXCEPT !.ans = a, !.oi = o, !.cl = c, !.bi = b] : a \in Answers, o \in 1..2, c \in {-1, -2}, b \in {1, 5}}
@@ -294,6 +319,9 @@ HcRefTok(c) == CASE c.ref = "tag" -> T_v10
                  [] c.ref = "dmatch" -> (IF c.kind = "ManifestPut" THEN HcBody(c).sha ELSE D1)
                  [] c.ref = "dmis" -> (IF HcBody(c).sha = D2 THEN D1 ELSE D2)
                  [] c.ref = "d512" -> D512
+                 [] c.ref = "d384" -> D384
+                 [] c.ref = "true512" -> Sha512Of[c.bi]
+                 [] c.ref = "true384" -> Sha384Of[c.bi]
 \* the tokens after /v2/ of the request of a case
 HcSegs(c) ==
   LET rp == IF c.defect = "repo" THEN RepoBad ELSE Repo2
@@ -325,7 +353,8 @@ HcHash(c) == c.rng * 7 + c.size * 3 + c.cr * 11 + (c.cl + 2) * 13 + c.bi * 17 + 
              + c.wsize * 37 + AnsIdx(c.ans) * 41 + AnsIdx(c.werr) * 43 + AnsIdx(c.cerr) * 47 + AnsIdx(c.merr) * 53
              + AnsIdx(c.iterr) * 59 + c.ct * 61 + Len(c.ref) * 67 + Len(c.kind) * 71 + (IF c.lastv THEN 73 ELSE 0)
 HcExported(c) == \/ c.defect # "none"
-                 \/ c.rf > 0 \/ c.rcerr # "ok"
+                 \/ c.rf > 0 \/ c.rcerr # "ok" \/ c.oi > 2
+                 \/ c.kind = "ManifestPut" /\ c.ans = "ok" /\ c.ref \in {"true512", "true384", "d384", "d512"}
                  \/ c.kind = "BlobGet" /\ c.ans = "ok" /\ c.rng > Len(BasicRanges)
                  \/ (HcHash(c) + Seed) % HandleK = 0
 
